@@ -17,6 +17,7 @@ Rewrites (one site at a time, applied to the source text):
   MERGEIF  nested ifs without else merged with `and`;  SWAPINDEP adjacent constant stores to different fields of self exchanged
   FSTR     'a{}b'.format(x) -> f'a{x}b'
   GUARD    `if c: BODY` as last statement of a loop body / function -> `if not c: continue / return` followed by BODY
+  CONSTX   a literal of the body named by a new module-level constant
   EXTRACT  one statement moved into a new private method of the class (extract method), read locals passed as arguments
   ALIAS    an attribute path used at least twice (`self.machine.events`) bound to a new local at the top of the function
 
@@ -44,8 +45,10 @@ def _indent(text, n):
     return "\n".join([lines[0]] + [(pad + l if l.strip() else l) for l in lines[1:]])
 
 
-def twins_in(func_node, btext, offs):
+def twins_in(func_node, btext, offs, top_start=None):
     out = []
+    if top_start is not None:
+        out.extend(_const_twins(func_node, btext, offs, top_start))
     col = func_node.col_offset
     s, e = _rng(func_node, offs)
     # decorators stay: the function range starts at `def`
@@ -337,6 +340,44 @@ def _extract_twins(func_node, btext, offs, params, limit=4):
     return out
 
 
+def _const_twins(func_node, btext, offs, top_start, limit=4):
+    """CONSTX: a literal number / string of the function body gets a module-level name (`_VP_K_<line> = literal` in front of the
+    top-level statement that holds the function) and is read through it."""
+    out = []
+    skip = set()
+    for n in ast.walk(func_node):
+        if isinstance(n, ast.JoinedStr):
+            skip |= {id(x) for x in ast.walk(n)}
+        if isinstance(n, ast.Expr) and isinstance(n.value, ast.Constant):
+            skip.add(id(n.value))
+        if isinstance(n, (ast.FunctionDef, ast.AsyncFunctionDef)):
+            for d in n.args.defaults + [x for x in n.args.kw_defaults if x is not None] + n.decorator_list:
+                skip |= {id(x) for x in ast.walk(d)}
+            if n.returns is not None:
+                skip |= {id(x) for x in ast.walk(n.returns)}
+            for a_ in n.args.args + n.args.kwonlyargs:
+                if a_.annotation is not None:
+                    skip |= {id(x) for x in ast.walk(a_.annotation)}
+        if isinstance(n, ast.AnnAssign):
+            skip |= {id(x) for x in ast.walk(n.annotation)}
+    k = 0
+    for n in ast.walk(func_node):
+        if k >= limit:
+            break
+        if not isinstance(n, ast.Constant) or id(n) in skip or isinstance(n.value, (bool, type(None), bytes)) or n.value is Ellipsis:
+            continue
+        if not isinstance(n.value, (int, float, str)) or n.end_lineno != n.lineno:
+            continue
+        ns, ne = _rng(n, offs)
+        if btext[ns:ne].decode("utf-8", "replace").strip() == "" or (ns > 0 and btext[ns - 1:ns] in (b"'", b'"')):
+            continue        # implicit string concatenation pieces have unreliable ranges
+        name = "_VP_K_%d_%d" % (n.lineno, n.col_offset)
+        edits = [(top_start, top_start, "%s = %s\n\n\n" % (name, repr(n.value))), (ns, ne, name)]
+        out.append(("CONSTX", edits, None, None, n.lineno, "name the literal %s" % repr(n.value)[:30]))
+        k += 1
+    return out
+
+
 _G = {}
 
 
@@ -344,7 +385,12 @@ def _run_one(i):
     props, repo, base_keys = _G["props"], _G["repo"], _G["base_keys"]
     rel, (kind, s, e, new, line, desc) = _G["items"][i]
     b = _G["btexts"][rel]
-    text = (b[:s] + new.encode("utf-8") + b[e:]).decode("utf-8")
+    if isinstance(s, list):         # several edits: apply from the end of the file backwards
+        for s_, e_, n_ in sorted(s, key=lambda t: -t[0]):
+            b = b[:s_] + n_.encode("utf-8") + b[e_:]
+        text = b.decode("utf-8")
+    else:
+        text = (b[:s] + new.encode("utf-8") + b[e:]).decode("utf-8")
     try:
         ast.parse(text)
     except SyntaxError as ex:
@@ -383,7 +429,12 @@ def run(props, repo, kinds=None, funcs=None, jobs=16):
         if rel not in btexts:
             btexts[rel] = _offsets(repo.modules[rel].text)
         b, offs = btexts[rel]
-        for t in twins_in(f.node, b, offs):
+        top = [st for st in repo.modules[rel].tree.body if st.lineno <= f.node.lineno <= (st.end_lineno or st.lineno)]
+        top_start = None
+        if top:
+            ln = min([top[0].lineno] + [d.lineno for d in getattr(top[0], "decorator_list", [])])
+            top_start = offs[ln - 1]
+        for t in twins_in(f.node, b, offs, top_start):
             if kinds and t[0] not in kinds:
                 continue
             items.append((rel, t, ident))
